@@ -27,6 +27,11 @@ def strip_comments(src):
     return '\n'.join(l.split('--')[0] for l in src.split('\n'))
 
 
+GENERATOR_DEPS = {'inits': ('C18',), 'callsites': ('C05', 'C06', 'C18'), 'supwiring': ('C08',), 'decisions': ('C04',),
+                  'funcs:checkNComponents': ('C03',), 'funcs:autoSelectInit': ('C20',), 'funcs:checkTupleSize': ('C06',),
+                  'funcs:validateCalibrationParams': ('C16',)}
+
+
 def translate(R):
     """regenerate lean/MLGen/*.lean from /repo's working tree"""
     tr = os.path.join(VERIF, 'translate', 'translate.py')
@@ -36,6 +41,15 @@ def translate(R):
     if rc != 0:
         R.broken('translator', 'translator could not transcribe the current source: ' + out[-1500:], {'output': out[-4000:]})
         return False
+    # a generator that met a construct outside its subset emitted an empty table / a stub (so the theorems that
+    # depend on it stop checking); it is named here for the properties that depend on it, and only for those
+    try:
+        failed = json.load(open(os.path.join(LEAN_DIR, '.lake', 'translate_status.json'))).get('failed', {})
+    except (OSError, ValueError):
+        failed = {}
+    for g, msg in failed.items():
+        if R.pid in GENERATOR_DEPS.get(g, GENERATOR_DEPS.get(g.split(':')[0], ())):
+            R.broken(f'translator:{g}', f'the translator could not transcribe the source it models ({g}): {msg[:400]}', {'generator': g, 'message': msg})
     return True
 
 
